@@ -31,6 +31,9 @@ var c15Decoys = []core.Tree{
 		"crs/regex-assembly/123456.ra.tmp": "precious\n", "crs/regex-assembly/.123456.ra.swp": "precious\n", "crs/tests/regression/tests/REQUEST-123-TEST/123456.yaml.tmp": "precious\n", "crs/tests/regression/tests/REQUEST-123-TEST/123456.yaml.new": "precious\n"},
 	// a second file that the rules-file glob finds, sorting before the real one and holding the addressed rules
 	{"crs/rules/AAA-123-DISABLED.conf.off": rulesFile(ruleSpec{ID: "123456", Regex: "DECOY"}, ruleSpec{ID: "123457", Regex: "DECOY2", Chain: []string{"DECOYCHAIN"}})},
+	// a directory link below the root that leads out of it: what it points at is not part of the root
+	{"crs/plugins-link": core.LinkPrefix + "../shared/plugins", "shared/plugins/other-plugin.conf": setupExample, "shared/plugins/other.example": setupExample, "shared/plugins/regex-assembly/777777.ra": "  x\n",
+		"crs/regex-assembly/linked": core.LinkPrefix + "../../shared/plugins/regex-assembly", "shared/tests/654329.yaml": testYaml, "crs/tests/regression/tests/LINKED": core.LinkPrefix + "../../../../shared/tests"},
 	// assembly-like files in the root but not below regex-assembly
 	{"crs/rules/scratch.ra": "  s\n", "crs/util/notes/draft.ra": " d\n\n", "crs/123456.ra": "  top\n", "crs/tests/regression/tests/REQUEST-123-TEST/123456.ra": " t\n", "crs/regex-assembly.ra": " r\n"},
 	{"crs/regex-assembly/.gitkeep": "", "crs/regex-assembly/include/.gitkeep": "", "crs/rules/.gitkeep": "", "crs/tests/regression/tests/.gitkeep": "", "crs/tests/regression/tests/REQUEST-123-TEST/.gitkeep": "", "crs/.editorconfig": "root = true\n"},
@@ -195,6 +198,10 @@ func C15(r *core.Run) {
 					}
 					os.RemoveAll(sb)
 					c15Sandbox(mask).Materialise(sb)
+					// some files are read-only: looking at a file does not change its permission bits either
+					for _, ro := range []string{"crs/regex-assembly/123456.ra", "crs/regex-assembly/include/inc.ra", "crs/tests/regression/tests/REQUEST-123-TEST/123461.yaml", "crs/rules/REQUEST-111-NEST.conf"} {
+						os.Chmod(filepath.Join(sb, ro), 0o444)
+					}
 					before := core.Snapshot(sb)
 					args := append([]string{}, cmd.Args...)
 					for i := range args {
